@@ -23,13 +23,22 @@ package geojson
 //@   entry use rootGlobalsInit()
 //@   ensures Shape: okShape(result0, result1)
 //@   ensures RequireValid: result1 == nil && opts != nil && opts.RequireValid && !rvOpen(result0) ==> oValidS(result0)
-//@   loop 0 invariant i >= 0
+//@   loop 0 invariant i >= 0 && len(data) <= len(old(data))
 //@   loop 0 decreases len(data)
+//@   decreases len(data) ; 2
 
 // ---- gjson (assumed): ForEach enumerates the members / elements in document order until the callback returns false
 //@ spec func gjLen(r gjson.Result) int
 //@ spec func gjKey(r gjson.Result, i int) gjson.Result
 //@ spec func gjVal(r gjson.Result, i int) gjson.Result
+// (A-GJSON) a member / element of a JSON value is a strictly shorter piece of text; Parse(json).Raw is (a piece of) json
+//@ axiom AGjsonSub(r gjson.Result, i int)
+//@   requires 0 <= i && i < gjLen(r)
+//@   ensures len(gjVal(r, i).Raw) < len(r.Raw) && len(gjKey(r, i).Raw) < len(r.Raw)
+//@ axiom AGjsonZero()
+//@   ensures len(zero(gjson.Result).Raw) == 0
+//@ extern gjson.Parse
+//@   ensures len(result.Raw) <= len(json)
 //@ extern gjson.Result.ForEach
 //@   iter iterator(idx) dom 0 <= idx && idx < gjLen(self) ; match true ; args gjKey(self, idx), gjVal(self, idx)
 
@@ -39,11 +48,15 @@ package geojson
 //@   props C05 C07 C08
 //@   arith order
 //@   entry use rootGlobalsInit()
-//@   requires opts != nil
+//@   entry use AGjsonZero()
+//@   requires opts != nil && len(data) > 0
+//@   decreases len(data) ; 1
+//@   call 1 iterinv Shorter: len(keys.rGeometry.Raw) < len(data) && len(keys.rGeometries.Raw) < len(data) && len(keys.rFeatures.Raw) < len(data)
+//@   call 1 use forall r gjson.Result :: AGjsonSub(r, $idx)
 //@   ensures Shape: okShape(result0, result1)
 //@   ensures RequireValid: result1 == nil && opts.RequireValid && !rvOpen(result0) ==> oValidS(result0)
-//@   call 0 iterstop false
-//@   call 0 iterinv keys != nil && !old($alloc)[keys] && (forall k *parseKeys :: old($alloc)[k] ==> (k.rCoordinates == old(k.rCoordinates) && k.rGeometries == old(k.rGeometries) && k.rGeometry == old(k.rGeometry) && k.rFeatures == old(k.rFeatures) && k.members == old(k.members)))
+//@   call 1 iterstop false
+//@   call 1 iterinv keys != nil && !old($alloc)[keys] && (forall k *parseKeys :: old($alloc)[k] ==> (k.rCoordinates == old(k.rCoordinates) && k.rGeometries == old(k.rGeometries) && k.rGeometry == old(k.rGeometry) && k.rFeatures == old(k.rFeatures) && k.members == old(k.members)))
 
 //@ func parseBBoxAndExtras
 //@   props C05 C07
@@ -135,7 +148,8 @@ package geojson
 //@ func parseJSONFeature
 //@   props C05 C07 C08
 //@   arith order
-//@   only post.
+//@   only post. dec.
+//@   decreases len(keys.rGeometry.Raw) + 1 ; 0
 //@   dead cover.ret2
 //@   entry use rootGlobalsInit()
 //@   requires keys != nil && opts != nil
@@ -184,8 +198,10 @@ package geojson
 //@ func parseJSONGeometryCollection
 //@   props C05 C07 C08
 //@   arith order
-//@   only post.
+//@   only post. dec.
+//@   decreases len(keys.rGeometries.Raw) + 1 ; 0
 //@   dead cover.ret3
+//@   call 0 use forall r gjson.Result :: AGjsonSub(r, $idx)
 //@   entry use rootGlobalsInit()
 //@   requires keys != nil && opts != nil
 //@   ensures Shape: okShape(result0, result1)
@@ -196,8 +212,10 @@ package geojson
 //@ func parseJSONFeatureCollection
 //@   props C05 C07 C08
 //@   arith order
-//@   only post.
+//@   only post. dec.
+//@   decreases len(keys.rFeatures.Raw) + 1 ; 0
 //@   dead cover.ret3
+//@   call 0 use forall r gjson.Result :: AGjsonSub(r, $idx)
 //@   entry use rootGlobalsInit()
 //@   requires keys != nil && opts != nil
 //@   ensures Shape: okShape(result0, result1)
